@@ -193,12 +193,34 @@ def install_hooks(ex, cx):
         hook = getattr(cx, 'after_child', None)
         if hook is not None:
             hook(ex, st, k, pos, rho, ok, np)
+        # FRAME of an inline child: besides the registers it may assign its own temporaries - disjoint from the parent's, which come from
+        # out.var and carry a fresh number - and any FIXED private name (a name starting with an underscore that was not handed out by
+        # out.var, e.g. the scratch names of the operator table): a nested instance of the same class uses the same fixed names.  So a
+        # parent must not rely on a fixed name across a child: they are havocked here.
+        temps = getattr(cx, 'temps', None)
+        if temps is not None:
+            keep = {'_text', '_ctx', '_pos', '_status', '_result'} | set(temps) | set(cx.user_names) | set(cx.user_sorts)
+            for nm in sorted(st.env):
+                if nm.startswith('_') and nm not in keep and not nm.startswith('__'):
+                    try:
+                        st.env[nm] = ex.havoc_value(nm + '_after_child', st.env[nm])
+                    except OutOfSubset:
+                        del st.env[nm]
         st.trace.append(f'child{k}')
         st.ghost.setdefault('calls', []).append((k, pos, rho))
         return Tup([ok, res, np])
 
     for k in cx.kids:
         ex.call_hooks[f'_CHILD_{k}'] = child_call
+
+    def modified_hook(ex, stmts, st):
+        # a loop whose body runs an inline child: the child's frame (fixed private names, see child_call) is part of what the loop modifies
+        temps = getattr(cx, 'temps', None)
+        if temps is None or not any(isinstance(n, ast.Name) and n.id.startswith('_CHILD_') for s_ in stmts for n in ast.walk(s_)):
+            return ()
+        keep = {'_text', '_ctx', '_pos', '_status', '_result'} | set(temps) | set(cx.user_names) | set(cx.user_sorts)
+        return [nm for nm in st.env if nm.startswith('_') and nm not in keep and not nm.startswith('__')]
+    ex.modified_hook = modified_hook
 
     def yield_hook(ex, node, v, st):
         # request to the driver: (CALL, f, pos) -> the callee's outcome triple
